@@ -8,8 +8,10 @@ TLC checks the invariants on the specifications, demonstrates every named deviat
 emits (a) one case per (dimension, PSF, boundary condition) with the exact integer operator and the index map,
 (b) one case per exact operator instance of Abel1D / WangCubic / Poisson1D / Heat1D, (c) one case per option
 combination of every test problem with the expected exact solution, exact data, noise scales, data for the scripted
-standard-normal draw Z, standardised residuals and prior quadratic forms.  This module constructs the real problems
-for every emitted case and compares.
+standard-normal draw Z, standardised residuals and prior quadratic forms; every constructor argument with a default is a
+pair <given, value> (the spec's Used(arg) = IF given THEN value ELSE documented default) and the lattice contains the
+admissible values Python treats as false (0, all-zero arrays) listed in the spec's OptionTable (d, emitted as one case).
+This module constructs the real problems for every emitted case and compares.
 """
 META = {
     "claimed": True,
@@ -19,12 +21,19 @@ META = {
              "bounded instance, the defining relations of the Abel quadrature, Wang's cubic, the Poisson stencil and explicit heat "
              "steps on rational instances, and the object-consistency invariants (SameModel, SameData, SameGeometries, ExactData = "
              "model(exactSolution), NoiseRelation, PosteriorIsLikPlusPrior) on a 7-action construction machine over the option "
-             "lattice; every emitted case is replayed into the real Deconvolution1D (incl. legacy), Deconvolution2D, Heat1D, "
-             "Poisson1D, Abel1D, WangCubic with scripted global normal draws."),
+             "lattice; every constructor argument with a default is a pair <given, value> and the spec's Used(arg) = IF given THEN "
+             "value ELSE documented default (invariants GivenIsUsed, ExactSolutionIsGiven, GivenDataIsData; TableCovered: every option "
+             "of the spec's option table that has an admissible value Python treats as false - 0, all-zero arrays - is in the lattice); "
+             "every emitted case is replayed into the real Deconvolution1D (incl. legacy), Deconvolution2D, Heat1D, "
+             "Poisson1D, Abel1D, WangCubic with scripted global normal draws, omitting the arguments that are not given."),
     "note": ("Bounded sizes (1-D dim<=6/7, 2-D dim<=3/4). Not asserted because undocumented (recorded as observations): "
              "orientation (convolution vs correlation) of the legacy circulant matrix for a custom PSF, position of the Defocus "
              "PSF support, the definition of the SNR option (only: one scalar sigma shared by data and likelihood), number of "
-             "heat time steps (read from the public time grid). KL/Step field expansions belong to C13 and are not swept."),
+             "heat time steps (read from the public time grid). KL/Step field expansions belong to C13 and are not swept. Falsy option "
+             "values are swept only where they are admissible on the documented interface (all-zero PSF / phantom / exactSolution "
+             "arrays, phantom_param = 0, legacy PSF_param = 0, max_time = 0, WangCubic data = 0); noise_std = 0, SNR = 0, PSF_param = 0 "
+             "(non-legacy), PSF_size = 0 and an all-zero Poisson1D conductivity raise or are undefined and are listed with the reason "
+             "in the spec's OptionTable; built-in image phantoms of Deconvolution2D are not swept."),
     "technique": ("TLA+ specs (Conv, TestProblems) model-checked with TLC incl. expected-counterexample deviation runs; "
                   "TLC-emitted exact cases replayed into cuqi.testproblem with scripted numpy.random"),
 }
@@ -371,6 +380,9 @@ def heat_requests(tier):
         out.append((N, 1.0, 0.625))
         out.append((N, 1.0, 1.25))
         out.append((N, 1.0, 0.75))
+        # max_time = 0: admissible ("the last time step") and falsy; on a grid where the default 0.2 would take several steps
+        out.append((N, 0.2, 0))
+        out.append((N, 1.0, 0.0))
     return out
 
 
@@ -396,12 +408,21 @@ def check_heat(ctx, table, N, dx, T, stats):
         K = len(ts) - 1
         dts = np.diff(ts)
         h = np.diff(np.concatenate([[0.0], grid]))
-        if pde.method != "forward_euler" or K < 1 or not np.allclose(dts, dts[0], rtol=1e-12) or not np.allclose(h, h[0], rtol=1e-12):
+        if K == 0:
+            # max_time = 0 (given, falsy): no step; the spec's K = 0 instance (its r is irrelevant)
+            c = next((v for kk, v in table.items() if kk[0] == N and kk[3] == 0 and kk[4] == u0), None)
+            fr = Fraction(c["r"][0], c["r"][1]) if c else None
+            r = float(fr) if c else 0.0
+            if c is not None:
+                stats["k0"] = stats.get("k0", 0) + 1
+                FALSY_SEEN[("Heat1D", "heat.K")] = FALSY_SEEN.get(("Heat1D", "heat.K"), 0) + 1
+        elif pde.method != "forward_euler" or not np.allclose(dts, dts[0], rtol=1e-12) or not np.allclose(h, h[0], rtol=1e-12):
             stats["skipped"] += 1
             continue
-        r = dts[0] / h[0] ** 2
-        fr = Fraction(r).limit_denominator(64)
-        c = table.get((N, fr.numerator, fr.denominator, K, u0)) if abs(float(fr) - r) < 1e-12 else None
+        else:
+            r = dts[0] / h[0] ** 2
+            fr = Fraction(r).limit_denominator(64)
+            c = table.get((N, fr.numerator, fr.denominator, K, u0)) if abs(float(fr) - r) < 1e-12 else None
         if c is None:
             stats["skipped"] += 1
             ctx.observations.setdefault("heat_unmatched_step", {})[key] = [K, r]
@@ -435,50 +456,93 @@ def _phantom_img(x, n):
     return np.array(x, dtype=float).reshape(n, n)
 
 
+LEGACY_PSF = {"lgauss": "gauss", "lsinc": "sinc", "lvonmises": "vonMises"}
+NAMED_PHANTOM = {"gauss": "Gauss", "sinc": "sinc", "vonmises": "vonMises"}
+FALSY_SEEN = {}          # (problem, option field) -> number of replayed cases in which the given value is falsy
+
+
+def _given(c, k):
+    return bool(c["args"][k][0])
+
+
+def _num(q):
+    """a rational of the spec as the Python number a user would write (0 -> int 0, 1/2 -> 0.5)"""
+    return int(q[0]) if q[1] == 1 else q[0] / q[1]
+
+
 def build_problem(c):
-    """realisation: option record -> real test problem, constructed under the scripted global stream.  Returns (tp, stream, extras)"""
+    """realisation: option record -> real test problem, constructed under the scripted global stream.  Arguments that the
+    spec's call does not give are omitted, given ones are passed as given (also 0 and all-zero arrays).
+    Returns (tp, stream, extras)"""
     import cuqi
     p = c["problem"]
     n = c["n"]
+    a = c["args"]
     Z = np.array(c["Z"], dtype=float) if c["Z"] else None
-    lv = _q(c["level"])
     x = np.array(c["x"], dtype=float)
-    dom = len(x) if len(x) else 2
+    kw = {}
     prior = None
-    if c["prior"] == "given":
-        prior = cuqi.distribution.Gaussian(np.ones(dom), 4, name="x")
+    if _given(c, "prior"):
+        prior = cuqi.distribution.Gaussian(np.ones(c["domdim"]), 4, name="x")
+        kw["prior"] = prior
     extras = {"given_prior": prior}
+    if _given(c, "level"):
+        kw["SNR" if c["noise"] == "snr" else "noise_std"] = _num(a["level"][1])
+    if p.startswith("Deconvolution"):
+        kw["noise_type"] = c["noise"]
+        if _given(c, "psf"):
+            nm = a["psf"][1]
+            kw["PSF"] = LEGACY_PSF[nm] if nm in LEGACY_PSF else np.array(c["psf"], dtype=float)
+        if _given(c, "psfparam"):
+            kw["PSF_param"] = _num(a["psfparam"][1])
+        if _given(c, "phantom"):
+            nm = a["phantom"][1]
+            kw["phantom"] = NAMED_PHANTOM[nm] if nm in NAMED_PHANTOM else (_phantom_img(x, n) if p == "Deconvolution2D" else x)
+        if _given(c, "pparam"):
+            kw["phantom_param"] = _num(a["pparam"][1])
+    elif p in ("Heat1D", "Poisson1D") and _given(c, "exsol"):
+        kw["exactSolution"] = x
+    elif p == "WangCubic" and _given(c, "wdata"):
+        v = a["wdata"][1]
+        kw["data"] = {"int": _num(v), "float": float(v[0] / v[1]), "vec": np.array([v[0] / v[1]], dtype=float)}[c["wform"]]
     with _quiet(), _scripted(Z) as st:
-        if p in ("Deconvolution1D", "Deconvolution1D_legacy"):
-            kw = dict(dim=n, PSF=np.array(c["psf"], dtype=float), phantom=x, noise_type=c["noise"], noise_std=lv, prior=prior)
-            if p == "Deconvolution1D":
-                tp = cuqi.testproblem.Deconvolution1D(BC=BC1DOC[c["bc"]], **kw)
-            else:
-                tp = cuqi.testproblem.Deconvolution1D(use_legacy=True, **kw)
+        if p == "Deconvolution1D":
+            tp = cuqi.testproblem.Deconvolution1D(dim=n, BC=BC1DOC[c["bc"]], **kw)
+        elif p == "Deconvolution1D_legacy":
+            tp = cuqi.testproblem.Deconvolution1D(dim=n, use_legacy=True, **kw)
         elif p == "Deconvolution2D":
-            tp = cuqi.testproblem.Deconvolution2D(dim=n, PSF=np.array(c["psf"], dtype=float), BC=BC2DOC[c["bc"]], phantom=_phantom_img(x, n),
-                                                  noise_type=c["noise"], noise_std=lv, prior=prior)
+            tp = cuqi.testproblem.Deconvolution2D(dim=n, BC=BC2DOC[c["bc"]], **kw)
         elif p == "Heat1D":
-            kw = {"exactSolution": x} if c["exsol"] == "given" else {}
-            tp = cuqi.testproblem.Heat1D(dim=n, endpoint=n + 1, max_time=1, SNR=lv, **kw)
+            tp = cuqi.testproblem.Heat1D(dim=n, endpoint=n + 1, max_time=1, **kw)
         elif p == "Poisson1D":
-            kw = {"exactSolution": x} if c["exsol"] == "given" else {}
-            tp = cuqi.testproblem.Poisson1D(dim=n, endpoint=n - 1, SNR=lv, **kw)
+            tp = cuqi.testproblem.Poisson1D(dim=n, endpoint=n - 1, **kw)
         elif p == "Abel1D":
-            tp = cuqi.testproblem.Abel1D(dim=n, endpoint=2, SNR=lv)
+            tp = cuqi.testproblem.Abel1D(dim=n, endpoint=2, **kw)
         elif p == "WangCubic":
-            kw = {"data": 3} if c["wdata"] == "given" else {}
-            tp = cuqi.testproblem.WangCubic(noise_std=lv, prior=prior, **kw)
+            tp = cuqi.testproblem.WangCubic(**kw)
         else:
             from cuqiverif.core import MachineryError
             raise MachineryError("unknown problem %r" % p)
     return tp, st, extras
 
 
+def _argkey(c, k):
+    g, v = c["args"][k]
+    if not g:
+        return "-"
+    return "%d_%d" % tuple(v) if isinstance(v, list) else str(v)
+
+
 def _pkey(c):
-    return "%s/n=%d/m=%d/psf=%s/bc=%s/phantom=%s/noise=%s/level=%d_%d/prior=%s/z=%s/exsol=%s/wdata=%s" % (
-        c["problem"], c["n"], c["m"], c["psfname"], c["bc"], c["phantom"], c["noise"], c["level"][0], c["level"][1],
-        c["prior"], c["zpat"], c["exsol"], c["wdata"])
+    key = "%s/n=%d/m=%d/psf=%s/bc=%s/phantom=%s/noise=%s/level=%s/prior=%s/z=%s/exsol=%s/wdata=%s" % (
+        c["problem"], c["n"], c["m"], _argkey(c, "psf"), c["bc"], _argkey(c, "phantom"), c["noise"], _argkey(c, "level"),
+        _argkey(c, "prior"), c["zpat"], _argkey(c, "exsol"), _argkey(c, "wdata"))
+    for k in ("psfparam", "pparam"):
+        if _given(c, k):
+            key += "/%s=%s" % (k, _argkey(c, k))
+    if c["wform"] != "na":
+        key += "/wform=" + c["wform"]
+    return key
 
 
 def _resolve(tp, comps, path):
@@ -524,7 +588,7 @@ def _geoms_compatible(gs):
 
 
 def check_problem(ctx, c, legacy_match):
-    """replay the 7 actions of one emitted behaviour (construction + get_components) and compare the final record"""
+    """replay the 8 actions of one emitted behaviour (construction + get_components) and compare the final record"""
     import cuqi
     key = _pkey(c)
     p = c["problem"]
@@ -540,7 +604,9 @@ def check_problem(ctx, c, legacy_match):
             raise
         ctx.mismatch(sig("construct"), case, "test problem cannot be constructed for a documented option combination: %r" % (e,))
         return False
-    numeric = c["numeric"]
+    numeric = c["numeric"]            # the operator is known exactly
+    xknown, yknown = c["xknown"], c["yknown"]
+    level = c["used"]["level"]        # the spec's Used(noise_std / SNR): the given level, otherwise the documented default
     x = np.array(c["x"], dtype=float)
     Z = np.array(c["Z"], dtype=float)
     # --- operator of numeric (deconvolution) problems: use the spec's numbers when the operator conforms, otherwise the
@@ -552,13 +618,20 @@ def check_problem(ctx, c, legacy_match):
             A_obs = _dense(tp.model.get_matrix())
         conforms = A_obs.shape == A_spec.shape and np.allclose(A_obs, A_spec, atol=1e-9)
         if p == "Deconvolution1D_legacy":
-            lk = (c["n"], c["psfname"])
+            lk = (c["n"], _argkey(c, "psf"))
             if not conforms:
                 legacy_match.setdefault(lk, False)
                 return False          # the other orientation variant of the same option is the one to replay
             legacy_match[lk] = True
     ctx.case(("problem", key))
     ctx.facets[fam] = ctx.facets.get(fam, 0) + 1
+    for k in c["falsy"]:
+        FALSY_SEEN[(p, k)] = FALSY_SEEN.get((p, k), 0) + 1
+    if numeric and not conforms and ("psf" in c["falsy"] or "psfparam" in c["falsy"]):
+        # (all-zero PSF arrays / PSF_param = 0 are not part of the operator sweep of Conv.tla: reported here)
+        ctx.mismatch(sig("operator"), case, "the model is not the convolution with the GIVEN point-spread function "
+                     "(given value: %s)" % ", ".join("%s=%s" % (k, _argkey(c, k)) for k in ("psf", "psfparam") if _given(c, k)),
+                     expected=A_spec, observed=A_obs)
     # --- GetComponents ---
     comps = tp.get_components()
     model, data, info = comps
@@ -594,8 +667,8 @@ def check_problem(ctx, c, legacy_match):
                         nums.append(float(tok))
                     except ValueError:
                         pass
-                if not any(abs(v - _q(c["level"])) <= 1e-9 * max(1.0, abs(v)) for v in nums):
-                    ctx.mismatch(sig("infostring"), case, "infoString does not state the noise level", str(_q(c["level"])), s)
+                if not any(abs(v - _q(level)) <= 1e-9 * max(1.0, abs(v)) for v in nums):
+                    ctx.mismatch(sig("infostring"), case, "infoString does not state the noise level", str(_q(level)), s)
             continue
         if have != want:
             ctx.mismatch(sig("info/" + fld), case, "get_components() info.%s set=%s, expected %s" % (fld, have, want))
@@ -634,9 +707,10 @@ def check_problem(ctx, c, legacy_match):
     if p != "WangCubic":
         xs = np.asarray(tp.exactSolution, dtype=float).ravel()
         yex = np.asarray(tp.exactData, dtype=float).ravel()
-        if numeric or c["exsol"] == "given":
+        if xknown:
             if xs.shape != x.shape or not np.allclose(xs, x, rtol=1e-9, atol=1e-9):
-                ctx.mismatch(sig("exactsolution"), case, "exactSolution is not the given phantom / exact solution", x, xs)
+                ctx.mismatch(sig("exactsolution"), case, "exactSolution is not the given phantom / exact solution "
+                             "(the spec's Used(phantom, phantom_param / exactSolution))", x, xs)
         with _quiet():
             if p in ("Heat1D", "Poisson1D", "Abel1D"):
                 y_model = np.asarray(tp.model.forward(np.asarray(tp.exactSolution), is_par=False), dtype=float).ravel()
@@ -644,17 +718,17 @@ def check_problem(ctx, c, legacy_match):
                 y_model = np.asarray(tp.model.forward(np.asarray(tp.exactSolution)), dtype=float).ravel()
         if yex.shape != y_model.shape or not np.allclose(yex, y_model, rtol=1e-10, atol=1e-12):
             ctx.mismatch(sig("exactdata_model"), case, "exactData is not the problem's model applied to exactSolution", y_model, yex)
-        if numeric:
-            y_spec = np.array(c["y"], dtype=float) if conforms else A_obs @ x
+        if yknown:
+            y_spec = np.array(c["y"], dtype=float) if (conforms or not numeric) else A_obs @ x
             if yex.shape != y_spec.shape or not np.allclose(yex, y_spec, rtol=1e-10, atol=1e-10):
-                ctx.mismatch(sig("exactdata"), case, "exactData is not the documented operator applied to the phantom", y_spec, yex)
+                ctx.mismatch(sig("exactdata"), case, "exactData is not the documented operator applied to the phantom / exact solution", y_spec, yex)
     # --- NoiseRelation ---
     d = np.asarray(tp.data, dtype=float).ravel()
     sc = c["scale"]
     v = _q(sc["v"])
     if p == "WangCubic":
         svec = np.array([v])
-        want = 1.0 if c["wdata"] == "default" else 3.0
+        want = _q(c["data"][0])       # the spec's Used(data): the given observation (also 0), otherwise the documented 1
         if d.shape != (1,) or d[0] != want:
             ctx.mismatch(sig("data"), case, "WangCubic data is not the given / default observation", want, d)
     else:
@@ -666,15 +740,17 @@ def check_problem(ctx, c, legacy_match):
             args = normals[0][3] or {}
             sigma = float(np.asarray(args.get("scale", np.nan)).ravel()[0]) if np.size(args.get("scale", np.nan)) == 1 else float("nan")
             loc = args.get("loc", 0)
-            if not (sigma > 0) or np.any(np.asarray(loc) != 0):
+            zero_signal = yknown and not np.any(np.array(c["y"], dtype=float))     # zero exact data: no signal, sigma = 0 is fine
+            if not (sigma > 0 or (zero_signal and sigma == 0)) or np.any(np.asarray(loc) != 0):
                 ctx.mismatch(sig("noise_scalar"), case, "SNR noise is not zero-mean with one positive scalar standard deviation", None, args)
                 return True
             svec = np.full(len(yex), sigma)
-            ctx.observations.setdefault("snr_times_sigma_over_norm_exactdata", {})[p] = round(float(sigma * v / np.linalg.norm(yex)), 12)
+            if np.linalg.norm(yex) > 0:
+                ctx.observations.setdefault("snr_times_sigma_over_norm_exactdata", {})[p] = round(float(sigma * v / np.linalg.norm(yex)), 12)
         exp_d = yex + svec * Z
         if d.shape != exp_d.shape or not np.allclose(d, exp_d, rtol=1e-10, atol=1e-12):
             ctx.mismatch(sig("noise"), case, "data - exactData is not NoiseScale(%s, level, exactData) .* Z" % c["noise"], exp_d - yex, d - yex)
-        if numeric and conforms:
+        if c["dknown"] and conforms:
             if not np.allclose(d, _qv(c["data"]), rtol=1e-10, atol=1e-12):
                 ctx.mismatch(sig("data"), case, "data differ from the specification's exactData + scale .* Z", _qv(c["data"]), d)
             if not np.allclose(svec, _qv(c["svec"]), rtol=1e-10):
@@ -686,7 +762,11 @@ def check_problem(ctx, c, legacy_match):
         pts = [np.ones(len(pm)), np.arange(1.0, len(pm) + 1), 1 + (np.arange(len(pm)) % 2)]
         pts = [(q, None, None) for q in pts]
     else:
-        pts = [(np.array(e["x"], dtype=float), _qv(e["res"]), _q(e["priorq"])) for e in c["logd"]]
+        pts = [(np.array(e["x"], dtype=float), _qv(e["res"]) if e["res"] else None, _q(e["priorq"])) for e in c["logd"]]
+    if not np.all(svec > 0):
+        # zero exact data under the SNR option: the noise-free likelihood is degenerate, no density is stated
+        ctx.observations.setdefault("degenerate_likelihood_zero_signal", {})[key] = True
+        pts = []
     for x0, res_spec, pq_spec in pts:
         with _quiet():
             got = float(np.asarray(tp.posterior.logd(x0)).ravel()[0])
@@ -722,9 +802,10 @@ DEVIATIONS = [("Conv", "Conv.deviation.cfg", "ColumnsAreConv", ()),
               ("TestProblems", "TestProblems.dev_VarianceAsStd.cfg", "NoiseRelation", ("Conv.tla",)),
               ("TestProblems", "TestProblems.dev_OtherModelInstance.cfg", "SameModel", ("Conv.tla",)),
               ("TestProblems", "TestProblems.dev_GetComponentsCopiesData.cfg", "SameData", ("Conv.tla",)),
-              ("TestProblems", "TestProblems.dev_OtherPhantom.cfg", "ExactDataIsModelOfExactSolution", ("Conv.tla",))]
+              ("TestProblems", "TestProblems.dev_OtherPhantom.cfg", "ExactDataIsModelOfExactSolution", ("Conv.tla",)),
+              ("TestProblems", "TestProblems.dev_TruthinessDefault.cfg", "GivenIsUsed", ("Conv.tla",))]
 
-ACTIONS = ["BuildModel", "MakeExact", "MakeDataDist", "SampleData", "MakeLikelihood", "Assemble", "GetComponents"]
+ACTIONS = ["ResolveOptions", "BuildModel", "MakeExact", "MakeDataDist", "SampleData", "MakeLikelihood", "Assemble", "GetComponents"]
 
 
 def _named_sweep(tier):
@@ -783,7 +864,7 @@ def replay_models(ctx, cases, tier):
     kinds = {}
     for c in cases:
         kinds.setdefault(c["kind"], []).append(c)
-    for k in ("abel", "wang", "poisson", "heat", "problem"):
+    for k in ("abel", "wang", "poisson", "heat", "problem", "options"):
         if not kinds.get(k):
             raise MachineryError("TestProblems emitted no %s case" % k)
     for c in kinds["abel"]:
@@ -802,6 +883,13 @@ def replay_models(ctx, cases, tier):
     return kinds
 
 
+def _legacy_verdict(ctx, legacy_match):
+    for lk, ok in sorted(legacy_match.items()):
+        if not ok:
+            ctx.mismatch("deconv1d_legacy/matrix/n=%d/psf=%s" % lk, {"kind": "legacy", "n": lk[0], "psfname": lk[1]},
+                         "legacy operator matches neither orientation variant of the specification (for the GIVEN PSF / PSF_param)")
+
+
 def replay_problems(ctx, probs):
     from cuqiverif.core import MachineryError
     legacy_match = {}
@@ -811,20 +899,31 @@ def replay_problems(ctx, probs):
         if check_problem(ctx, c, legacy_match):
             done += 1
             per[c["problem"]] = per.get(c["problem"], 0) + 1
-    for lk, ok in sorted(legacy_match.items()):
-        if not ok:
-            ctx.mismatch("deconv1d_legacy/matrix/n=%d/psf=%s" % lk, {"kind": "legacy", "n": lk[0], "psfname": lk[1]},
-                         "legacy operator matches neither orientation variant of the specification")
+    _legacy_verdict(ctx, legacy_match)
     for p in ("Deconvolution1D", "Deconvolution1D_legacy", "Deconvolution2D", "Heat1D", "Poisson1D", "Abel1D", "WangCubic"):
         if not per.get(p) and not ctx.violations:
             raise MachineryError("no behaviour of %s was replayed" % p)
     return done
 
 
+def check_option_table(ctx, table):
+    """Part C of the spec: every option with a default of every test problem.  Each row that lists an admissible falsy value
+    must have been realised by at least one replayed construction (vacuity guard); rows without one are recorded with the reason."""
+    from cuqiverif.core import MachineryError
+    rows = table["rows"]
+    missing = [(r["problem"], r["option"]) for r in rows if r["falsy"] and not FALSY_SEEN.get((r["problem"], r["field"]))]
+    ctx.observe("falsy_option_values_replayed", {"%s.%s" % (r["problem"], r["option"]): FALSY_SEEN.get((r["problem"], r["field"]), 0)
+                                                 for r in rows if r["falsy"]})
+    ctx.observe("options_without_admissible_falsy_value", {"%s.%s" % (r["problem"], r["option"]): r["why"] for r in rows if not r["falsy"]})
+    if missing and not ctx.violations:
+        raise MachineryError("falsy option values of the spec's OptionTable were not replayed: %r" % (missing,))
+
+
 def run(ctx):
     from cuqiverif import tlc as _tlc
     from cuqiverif.core import MachineryError
     tier = ctx.tier
+    FALSY_SEEN.clear()
     # 1. the specifications, model-checked
     rc = ctx.tlc("Conv", cfg="Conv.%s.cfg" % tier, workers=16, timeout=1500)
     ctx.model_must_hold(rc, "Conv")
@@ -845,6 +944,7 @@ def run(ctx):
     replay_conv(ctx, rc.cases, tier)
     kinds = replay_models(ctx, rt.cases, tier)
     nb = replay_problems(ctx, kinds["problem"])
+    check_option_table(ctx, kinds["options"][0])
     # samples
     ex = [c for c in rc.cases if c["kind"] == "conv1d" and c["n"] == 4 and c["m"] == 4 and c["psfname"] == "ramp" and c["bc"] == "mirror"]
     if ex:
@@ -856,9 +956,13 @@ def run(ctx):
     ctx.sample({"case": kinds["poisson"][1]})
     ex = [c for c in kinds["problem"] if c["problem"] == "Deconvolution1D" and c["noise"] == "scaledgaussian" and c["zpat"] == "alt"]
     if ex:
-        ctx.sample({"case": {k: ex[0][k] for k in ("problem", "n", "psf", "bc", "noise", "level", "x", "y", "Z", "svec", "data", "info")}})
+        ctx.sample({"case": {k: ex[0][k] for k in ("problem", "n", "psf", "bc", "noise", "args", "used", "x", "y", "Z", "svec", "data", "info")}})
+    ex = [c for c in kinds["problem"] if c["problem"] == "WangCubic" and "wdata" in c["falsy"]]
+    if ex:
+        ctx.sample({"case": {k: ex[0][k] for k in ("problem", "args", "used", "falsy", "wform", "data", "svec", "logd")}})
     ctx.rule = ("Conv: one case per (pd, n, m, BC, integer PSF) with the exact integer operator and index map; TestProblems: one case per "
-                "rational operator instance (abel/wang/poisson/heat) and one behaviour (7 actions) per option combination; non-trivial = "
+                "rational operator instance (abel/wang/poisson/heat) and one behaviour (8 actions) per option combination (arguments as "
+                "<given, value> pairs incl. the admissible falsy values of the spec's OptionTable); non-trivial = "
                 "distinct (problem family, comparison kind, configuration)")
     ctx.exhaustive = True
     ctx.traces = nb + len(rc.cases)
@@ -890,6 +994,13 @@ def replay(ctx, case):
     kind = case.get("kind")
     if kind == "model":
         return run(ctx)
+    if kind == "legacy":
+        rt = _replay_cases(ctx, "TestProblems")
+        legacy_match = {}
+        for c in rt.cases:
+            if c["kind"] == "problem" and c["problem"] == "Deconvolution1D_legacy" and c["n"] == case["n"] and _argkey(c, "psf") == case["psfname"]:
+                check_problem(ctx, c, legacy_match)
+        _legacy_verdict(ctx, legacy_match)
     if kind in ("conv1d", "conv2d", "named1d", "named2d", "random1d", "legacy"):
         rc = _replay_cases(ctx, "Conv")
         cs = [c for c in rc.cases if c["n"] == case["n"] and (kind == "legacy" or (c["m"] == case["m"] and c["bc"] == case["bc"]))]
